@@ -196,7 +196,7 @@ CHECKS = {
              'estimate equals ln N + sum w ln w for the normalised weights and lies in [0, ln N] whenever N >= number of non-zero '
              'samples (Gibbs inequality proved in Lib/Rlist.v). All for arbitrary real vectors, which single literal tests cannot give.',
         note=AX_R + 'finite log-likelihoods in the lists (zero-probability samples are counted in N only); prior factor p > 0 as a parameter; '
-             'the two-PDF dkl() is covered by the oracle only (zero on identical inputs, non-negative); rounding is judged against mpmath.',
+             'the two-PDF dkl(p, q) is not regenerated (the translator does not walk two arrays element by element): its two theorems (non-negative by the Gibbs inequality, zero for identical inputs) are about the definition sum p ln(p/q) dV of the normalised PDFs, and the implementation is compared with that definition at 40 digits by the oracle (+inf where q vanishes and p does not); rounding is judged against mpmath.',
         design='6 C10'),
     'C09': dict(
         technique='Coq proof by induction over arbitrary batch histories about an executable Gallina model of Sample.append/output selection/termination, tied to the implementation by vm_compute correspondence on replayed histories',
